@@ -34,7 +34,9 @@ def optFeats (o : Opts) : List String :=
 
 /-- triplets `(i, j, bits)*` -/
 def trips : List Int → List (Nat × Nat × Float)
-  | i :: j :: v :: rest => (i.toNat, j.toNat, bitsToFloat v) :: trips rest
+  | i :: j :: v :: rest =>
+    -- an identifier no rank owns was dumped as -1: keep it visible as an out-of-range index
+    ((if i < 0 then 1000000007 else i.toNat), (if j < 0 then 1000000007 else j.toNat), bitsToFloat v) :: trips rest
   | _ => []
 
 /-- rows (sorted by column) of an `n`-row matrix given by triplets; duplicates are kept -/
@@ -261,6 +263,84 @@ def run (prop op : String) (a : Array Int) : Verdict :=
   let r := match op with
     | "history" => runRd checkHistory a
     | "solve" => runRd (checkSolve prop) a
+    | _ => some (badCase s!"unknown op {op}")
+  r.getD (badCase "malformed")
+
+end Raptor.Driver.Amg
+
+namespace Raptor.Driver.Amg
+open Raptor Raptor.Driver Raptor.Cycle
+
+/-- dense image of triplets as a sorted association list, entries of magnitude ≤ `tol` dropped -/
+def denseF (es : List (Nat × Nat × Float)) (tol : Float) : List ((Nat × Nat) × Float) :=
+  let sorted := es.toArray.qsort (fun a b => a.1 < b.1 || (a.1 == b.1 && a.2.1 < b.2.1)) |>.toList
+  let merged := sorted.foldl (fun (acc : List ((Nat × Nat) × Float)) e =>
+    match acc with
+    | ((i, j), s) :: tl => if i == e.1 && j == e.2.1 then ((i, j), s + e.2.2) :: tl else ((e.1, e.2.1), e.2.2) :: acc
+    | [] => [((e.1, e.2.1), e.2.2)]) []
+  (merged.filter fun p => p.2.abs > tol).reverse
+
+/-- C08: the dumped hierarchy is conformal, Galerkin and strictly coarsening -/
+def checkHier : Rd Verdict := do
+  let o ← rdOpts
+  let aBefore ← rdVec; let aAfter ← rdVec
+  let H ← rdHierarchy o.np
+  let base := "C08/" ++ (if o.solver == 0 then s!"RS/interp{o.interp}" else "SA")
+  let n0 := (H.head?.map (·.n)).getD 0
+  let feats := "hier" :: optFeats o ++ [s!"levels{H.length}"] ++ (if H.length ≤ 1 then ["trivial"] else []) ++
+               (if H.any (fun l => l.info.any fun i => i.getD 0 0 == 0) then ["emptyrank_level"] else ["fullranks"])
+  if nb aBefore != nb aAfter then return specFail (base ++ "/spec/user_matrix_altered") "" feats
+  -- setup stops at the size or depth limit
+  match H.getLast? with
+  | some last =>
+    if last.n > o.maxCoarse && H.length < o.maxLevels then
+      return specFail (base ++ "/spec/stopped_early") s!"coarsest has {last.n} > max_coarse={o.maxCoarse} unknowns with {H.length} < max_levels={o.maxLevels} levels" feats
+    if H.length > o.maxLevels && o.maxLevels > 0 then
+      return specFail (base ++ "/spec/too_deep") s!"{H.length} levels, max_levels={o.maxLevels}" feats
+  | none => return badCase "empty hierarchy"
+  for (l, k) in H.zipIdx do
+    -- global sizes = sums of local sizes, reported identically on every rank; work vectors have the level's size
+    for (inf, r) in l.info.zipIdx do
+      let lr := inf.getD 0 0
+      if inf.getD 1 0 != (l.n : Int) || inf.getD 2 0 != (l.n : Int) then
+        return specFail (base ++ "/spec/global_size") s!"level {k} rank {r}: global {inf.getD 1 0}x{inf.getD 2 0}, sum of local rows {l.n}" feats
+      if inf.getD 4 0 != lr || inf.getD 5 0 != lr || inf.getD 6 0 != lr then
+        return specFail (base ++ "/spec/work_vectors") s!"level {k} rank {r}: x,b,tmp sizes {inf.getD 4 0},{inf.getD 5 0},{inf.getD 6 0} for {lr} rows" feats
+    if l.aTrips.any (fun e => e.1 ≥ l.n || e.2.1 ≥ l.n) then
+      return specFail (base ++ "/spec/A_index_range") s!"level {k}: an entry of A refers to a row/column ≥ {l.n}" feats
+    match H[k+1]? with
+    | none => if l.hasP then return specFail (base ++ "/spec/P_on_coarsest") "" feats
+    | some c =>
+      if !l.hasP then return specFail (base ++ "/spec/missing_P") s!"level {k}" feats
+      -- one row per fine unknown, one column per coarse unknown; column maps refer to existing coarse unknowns
+      let prow := (l.info.map fun i => (i.getD 8 0)).foldl (· + ·) 0
+      if prow != (l.n : Int) then return specFail (base ++ "/spec/P_rows") s!"level {k}: P has {prow} rows, A has {l.n}" feats
+      if l.nc != c.n then return specFail (base ++ "/spec/P_cols") s!"level {k}: P has {l.nc} local columns in total, next level has {c.n} unknowns" feats
+      for inf in l.info do
+        if inf.getD 10 0 != (l.n : Int) || inf.getD 11 0 != (c.n : Int) then
+          return specFail (base ++ "/spec/P_global_size") s!"level {k}: P reported {inf.getD 10 0}x{inf.getD 11 0}, expected {l.n}x{c.n}" feats
+      if l.pTrips.any (fun e => e.1 ≥ l.n || e.2.1 ≥ c.n) then
+        return specFail (base ++ "/spec/P_index_range") s!"level {k}: an entry of P refers to a row ≥ {l.n} or a coarse unknown ≥ {c.n}" feats
+      -- strictly fewer unknowns (whenever the level was coarsened at all, its operator has off-diagonal entries)
+      if !(c.n < l.n) && l.aTrips.any (fun e => e.1 != e.2.1 && e.2.2 != 0) then
+        return specFail (base ++ "/spec/not_coarser") s!"level {k}: {l.n} -> {c.n} unknowns" feats
+      -- Galerkin: A_{k+1} = Pᵀ (A P) up to dropped entries
+      let ap := l.aTrips.flatMap fun a => (l.pTrips.filter fun p => p.1 == a.2.1).map fun p => (a.1, p.2.1, a.2.2 * p.2.2)
+      let pap := l.pTrips.flatMap fun p => (ap.filter fun q => q.1 == p.1).map fun q => (p.2.1, q.2.1, p.2.2 * q.2.2)
+      let scale := (c.aTrips.map fun e => e.2.2.abs).foldl max 1e-300
+      let want := denseF pap (1e-9 * scale); let got := denseF c.aTrips (1e-9 * scale)
+      let keys := (want.map (·.1)) ++ (got.map (·.1))
+      for key in keys.eraseDups do
+        let w := ((want.find? fun p => p.1 == key).map (·.2)).getD 0
+        let g := ((got.find? fun p => p.1 == key).map (·.2)).getD 0
+        if !((w - g).abs ≤ 1e-8 * scale) then
+          return specFail (base ++ "/spec/galerkin") s!"level {k+1} entry {key}: stored {g}, P^T A P gives {w}" feats
+  let _ := n0
+  return ok feats
+
+def run08 (op : String) (a : Array Int) : Verdict :=
+  let r := match op with
+    | "hier" => runRd checkHier a
     | _ => some (badCase s!"unknown op {op}")
   r.getD (badCase "malformed")
 
